@@ -36,11 +36,22 @@ class Report:
         self.analysed = {}      # free-form counters: functions, paths, call sites
         self.notes = []
 
+    def _add(self, o):
+        """Identical re-evaluations of one obligation (same key, verdict and text, e.g. one per path) are
+        counted but stored once."""
+        sig = (o.key, o.ok, o.what)
+        self.evaluations = getattr(self, "evaluations", 0) + 1
+        seen = self.__dict__.setdefault("_seen", set())
+        if sig in seen:
+            return
+        seen.add(sig)
+        self.obls.append(o)
+
     def ok(self, rule, key, what, loc=None, detail=None):
-        self.obls.append(Obl(rule, key, what, True, loc, detail, self.config))
+        self._add(Obl(rule, key, what, True, loc, detail, self.config))
 
     def bad(self, rule, key, what, loc=None, detail=None):
-        self.obls.append(Obl(rule, key, what, False, loc, detail, self.config))
+        self._add(Obl(rule, key, what, False, loc, detail, self.config))
 
     def check(self, cond, rule, key, what, loc=None, detail=None):
         (self.ok if cond else self.bad)(rule, key, what, loc, detail)
@@ -63,6 +74,7 @@ class Report:
 
     def merge(self, other):
         self.obls.extend(other.obls)
+        self.evaluations = getattr(self, "evaluations", 0) + getattr(other, "evaluations", 0)
         for k, v in other.analysed.items():
             self.analysed[k] = self.analysed.get(k, 0) + v
         self.notes.extend(other.notes)
